@@ -50,6 +50,7 @@ class Mini:
         self.slots = [None] * 4          # None = empty, "T" = tombstone, (code, key, id)
         self.script = list(script if script != "-" else "")
         self.min_empty = 4
+        self.live = {}                   # live keys (insertion-ordered)
         self.absent_lookups_full = 0     # look-ups of absent keys executed with no Empty slot left
         self.absent_after_delete = 0
         self.deleted = False
@@ -117,6 +118,7 @@ class Mini:
                 self.slots[idx] = orig
                 return "NO_MEM"
         self.count += 1
+        self.live[key] = True
         self.min_empty = min(self.min_empty, self.empties())
         return "SUCCESS"
 
@@ -129,13 +131,14 @@ class Mini:
             return "NOT_FOUND"
         self.slots[i] = "T"
         self.count -= 1
+        del self.live[key]
         self.deleted = True
         if self.count < self.n // 4 and self.n > 4:
             self.rehash(self.n // 2)
         return "SUCCESS"
 
     def live_keys(self):
-        return [e[1] for e in self.slots if e not in (None, "T")]
+        return list(self.live)
 
     def layout(self):
         return ",".join("%d:%d" % (i, e[2]) for i, e in enumerate(self.slots) if e not in (None, "T")) or "-"
@@ -239,7 +242,7 @@ def gen_churn(r, kind, off, target_n, rounds):
         for _ in range(24):
             k = r.randrange(keyspace) if r.random() < 0.7 else nextkey[0]
             nextkey[0] += 1
-            if k in m.live_keys():
+            if k in m.live:
                 continue
             if not prefer_empty:
                 return k
@@ -280,14 +283,14 @@ def gen_churn(r, kind, off, target_n, rounds):
                 m.insert(kk, rid)
             else:
                 do_insert(kk)
-        elif not m.would_shrink_on_remove() and m.live_keys():
+        elif not m.would_shrink_on_remove() and m.live:
             victim = r.choice(m.live_keys())
             m.remove(victim)
             ops.append("%s%d" % (r.choice("RRE"), victim))
         x = r.random()
         if x < 0.35:
             a = r.choice(absent + [fresh_key(False) or 7])
-            if a not in m.live_keys():
+            if a not in m.live:
                 m.lookup(a)
                 ops.append("%s%d" % (r.choice("FGR"), a))
         elif x < 0.40:
@@ -295,9 +298,68 @@ def gen_churn(r, kind, off, target_n, rounds):
     for a in absent:
         ops.append("F%d" % a)
         ops.append("G%d" % a)
-    if m.live_keys():
-        ops.append("F%d" % m.live_keys()[0])
+    if m.live:
+        ops.append("F%d" % next(iter(m.live)))
     ops += ["T", "Z"]
+    return "%s %d - %s" % (kind, off, " ".join(ops))
+
+
+def gen_fill(r, kind, off, target_n, extra=2):
+    """churn with the live count strictly between the thresholds until the replica reports 0 Empty slots (every
+    free slot a tombstone), THEN a burst of target_n + extra fresh keys (more than the table holds: it has to
+    grow while every insertion reuses a tombstone), then look-ups of all of them"""
+    ids, ops = Ids(), []
+    m = Mini(kind)
+    keyspace = 1 << 16 if kind in ("mult", "id", "special") else 4096
+    seq = [0]
+
+    def fresh(prefer_empty):
+        best = None
+        for _ in range(64):
+            k = r.randrange(keyspace) if r.random() < 0.6 else seq[0]
+            seq[0] += 1
+            if k in m.live:
+                continue
+            if not prefer_empty or m.slots[m.plan(k)] is None:
+                return k
+            best = k
+        return best
+
+    def ins(k):
+        rid = ids.new()
+        m.insert(k, rid)
+        ops.append("I%d.%d" % (k, rid))
+
+    while m.n < target_n:
+        ins(fresh(False))
+    lo, hi = m.n // 4, m.n // 2 + m.n // 8
+    while m.count - 1 < lo and m.count + 2 < hi:
+        ins(fresh(False))
+    for _ in range(60 * target_n):
+        if m.empties() == 0 or m.would_rehash_on_insert():
+            break
+        k = fresh(True)
+        if k is None or m.slots[m.plan(k)] is not None:
+            break                           # no key reaches an Empty slot any more (colliding hash function)
+        ins(k)
+        if m.would_shrink_on_remove():
+            break
+        m.remove(k)
+        ops.append("%s%d" % (r.choice("RE"), k))
+    ops += ["F%d" % (1 << 30), "G%d" % (1 << 30)]
+    burst = []
+    while len(burst) < target_n + extra:
+        k = fresh(False)
+        if k is None:
+            break
+        burst.append(k)
+        if r.random() < 0.2:
+            rid = ids.new()
+            ops += ["%s%d" % (r.choice("PQ"), k), "A%d.%d" % (k, rid)]
+            m.insert(k, rid)
+        else:
+            ins(k)
+    ops += ["F%d" % k for k in burst] + ["G%d" % k for k in burst[:4]] + ["T", "Z"]
     return "%s %d - %s" % (kind, off, " ".join(ops))
 
 
@@ -342,28 +404,40 @@ def with_faults(r, case, how_many):
 def gen(ctx, seed, tier):
     r = ctx.rng("gen", seed)
     cases = []
-    quick = tier == "quick"
+    quick = tier == "quick" or seed >= 1000      # the extra seeds of a search use the quick sizes
     for kind in HFS:
         for off in OFFS:
-            for _ in range(22 if quick else 120):
+            for _ in range(70 if quick else 260):
                 cases.append(gen_random(r, kind, off, r.randint(5, 90), r.choice([3, 6, 12, 24])))
-            for _ in range(8 if quick else 40):
+            for _ in range(24 if quick else 90):
                 script = "".join(r.choice("1110") for _ in range(r.randint(1, 8)))
                 cases.append(gen_random(r, kind, off, r.randint(10, 80), r.choice([6, 12, 24]), script))
-            for tn in ([8, 16, 32] if quick else [8, 16, 32, 64, 128]):
-                for _ in range(4 if quick else 12):
+            big = kind in ("id", "mult", "special")
+            sizes = ([8, 16, 32, 64] if big else [8, 16, 32]) if quick else \
+                    ([8, 16, 32, 64, 128, 256] if big else [8, 16, 32, 64])
+            for tn in sizes:
+                for _ in range(8 if quick else 16):
                     cases.append(gen_churn(r, kind, off, tn, r.randint(3 * tn, 8 * tn)))
+    for kind in HFS:
+        for tn in (8, 16, 32):
+            for off in (OFFS if not quick else [r.choice(OFFS)]):
+                for _ in range(2):
+                    cases.append(gen_fill(r, kind, off, tn, r.randint(2, 6)))
     base = [gen_random(r, k, o, 40, 12) for k in HFS for o in (8,)]
-    for b in base:
-        cases += with_faults(r, b, 4 if quick else 7)
     if not quick:
-        for kind in ("mod4", "const", "special"):
-            cases += gen_exhaustive(kind, 8, 4)
+        base += [gen_random(r, k, o, r.randint(30, 120), r.choice([12, 24, 48])) for k in HFS for o in OFFS for _ in range(4)]
+        base += [gen_churn(r, k, 8, 16, 60) for k in HFS]
+    for b in base:
+        cases += with_faults(r, b, 4 if quick else 10)
+    if not quick:
+        cases += gen_exhaustive("mod4", 8, 4)
+        cases += gen_exhaustive("const", 24, 4) + gen_exhaustive("special", 8, 3)
         cases += gen_exhaustive("id", 0, 3) + gen_exhaustive("mult", 24, 3)
     else:
-        ex = gen_exhaustive("mod4", 8, 3)
-        r.shuffle(ex)
-        cases += ex[:400]
+        for kind, off, cnt in (("mod4", 8, 600), ("const", 24, 300), ("special", 0, 300), ("id", 8, 200)):
+            ex = gen_exhaustive(kind, off, 3)
+            r.shuffle(ex)
+            cases += ex[:cnt]
     return cases
 
 
@@ -384,6 +458,9 @@ def targeted(ctx):
             out.append("%s %d - %s T Z" % (kind, off, " ".join("I%d.%d" % (k, k) for k in range(1, 14))))
             for tn in (8, 16, 32):
                 out.append(gen_churn(r, kind, off, tn, 10 * tn))
+            for tn in (8, 16, 32, 64):
+                out.append(gen_fill(r, kind, off, tn, 2))
+                out.append(gen_fill(r, kind, off, tn, r.randint(3, 12)))
             b = gen_random(r, kind, off, 60, 12)
             out += with_faults(r, b, 6)
     return out
